@@ -11,7 +11,7 @@ EXTENDS KFilter, TLCExt, Json, Randomization
 CONSTANTS LeafSet,    \* "small" | "full"
           Depth,      \* 1 | 2 (connective depth)
           LayoutIds,  \* subset of 1..NLayouts
-          DbSet,      \* "full16" | "le2" | "single"
+          DbSet,      \* "full16" | "le2" | "le2s" | "single"
           Thres,      \* filter-test threshold (real constant: 0)
           Wraps,      \* subset of BOOLEAN: with / without the ignore-hidden wrapper
           SampleK,    \* Depth = 3 only: size of the random depth-2 sample that is combined
@@ -57,6 +57,9 @@ Full16 == [i \in 1..16 |-> [a |-> ShapeSeq[i].a, b |-> ShapeSeq[i].b, class |-> 
 Sid == 1  \* the caller is entry 1
 DBs == CASE DbSet = "full16" -> {Full16}
          [] DbSet = "single" -> {[i \in {1} |-> EntryOf(s)] : s \in Shapes} \cup {<<>>}
+         \* databases of <= 2 entries over six representative shapes (threshold arms depend on cardinalities)
+         [] DbSet = "le2s"   -> {<<>>} \cup {[i \in {1} |-> EntryOf(ShapeSeq[k])] : k \in {1, 2, 4, 6, 11, 16}}
+                                \cup {[i \in {1, 2} |-> EntryOf(ShapeSeq[p[i]])] : p \in {q \in {1, 2, 4, 6, 11, 16} \X {1, 2, 4, 6, 11, 16} : q[1] <= q[2]}}
          [] DbSet = "le2"    -> {[i \in {1} |-> EntryOf(s)] : s \in Shapes} \cup {<<>>}
                                 \cup {[i \in {1, 2} |-> EntryOf(ShapeSeq[p[i]])] : p \in {q \in (1..16) \X (1..16) : q[1] <= q[2]}}
 
